@@ -728,6 +728,116 @@ func concurrent(r *evid.Run, dir string, i int, cs int64) {
 	r.Case(fmt.Sprintf("conc/%d/%d/%d/%d", nkeys, nw, nr, cs), seen > 0)
 }
 
+// batches: goroutines call walletdb.Batch at the same time, so that bbolt
+// coalesces their functions into shared write transactions; some functions
+// fail after writing.  A failing function makes bbolt roll the shared
+// transaction back and re-run the others.  Oracle: every Batch that returned
+// nil has ALL its keys present with its values (now and after a reopen), every
+// Batch that returned an error has none.
+func batches(r *evid.Run, dir string, i int, cs int64) {
+	rg := rand.New(rand.NewSource(cs))
+	path := filepath.Join(dir, fmt.Sprintf("batch-%d-%d.db", os.Getpid(), cs))
+	db, err := walletdb.Create("bdb", path, true, 10*time.Second, false)
+	if err != nil {
+		r.Inconclusive("create: " + err.Error())
+		return
+	}
+	defer func() { db.Close(); os.Remove(path) }()
+	top := []byte("top")
+	walletdb.Update(db, func(tx walletdb.ReadWriteTx) error { _, err := tx.CreateTopLevelBucket(top); return err })
+	ng := 2 + rg.Intn(7)
+	rounds := 3 + rg.Intn(6)
+	failOdds := 2 + rg.Intn(4)
+	type outcome struct {
+		keys []string
+		val  string
+		err  error
+		fail bool
+		runs int32
+	}
+	var all []*outcome
+	for round := 0; round < rounds; round++ {
+		var wg sync.WaitGroup
+		start := make(chan struct{})
+		for g := 0; g < ng; g++ {
+			o := &outcome{val: fmt.Sprintf("v-%d-%d", round, g), fail: rg.Intn(failOdds) == 0}
+			for k := 0; k < 1+rg.Intn(3); k++ {
+				o.keys = append(o.keys, fmt.Sprintf("k-%d-%d-%d", round, g, k))
+			}
+			all = append(all, o)
+			wg.Add(1)
+			go func(o *outcome) {
+				defer wg.Done()
+				<-start
+				o.err = walletdb.Batch(db, func(tx walletdb.ReadWriteTx) error {
+					atomic.AddInt32(&o.runs, 1)
+					b := tx.ReadWriteBucket(top)
+					for _, k := range o.keys {
+						if err := b.Put([]byte(k), []byte(o.val)); err != nil {
+							return err
+						}
+					}
+					if o.fail {
+						return errBoom
+					}
+					return nil
+				})
+			}(o)
+		}
+		close(start)
+		wg.Wait()
+	}
+	check := func(when string) bool {
+		var bad string
+		walletdb.View(db, func(tx walletdb.ReadTx) error {
+			b := tx.ReadBucket(top)
+			for _, o := range all {
+				for _, k := range o.keys {
+					v := b.Get([]byte(k))
+					switch {
+					case o.err == nil && string(v) != o.val:
+						bad = fmt.Sprintf("lost-acknowledged-batch|%s: Batch returned nil (its function ran %d times) but key %q holds %q instead of %q", when, o.runs, k, v, o.val)
+					case o.err != nil && v != nil:
+						bad = fmt.Sprintf("failed-batch-visible|%s: Batch returned %v but key %q holds %q", when, o.err, k, v)
+					}
+				}
+			}
+			return nil
+		})
+		if bad != "" {
+			i := strings.Index(bad, "|")
+			r.Violation("c11:batch:"+bad[:i], bad[i+1:], "batches", cs, nil)
+			return false
+		}
+		return true
+	}
+	reran := 0
+	for _, o := range all {
+		if o.fail != (o.err != nil) {
+			r.Violation("c11:batch:result", fmt.Sprintf("Batch whose function fails=%v returned %v", o.fail, o.err), "batches", cs, nil)
+			return
+		}
+		if o.runs > 1 {
+			reran++
+		}
+	}
+	if !check("right after") {
+		return
+	}
+	db.Close()
+	db, err = walletdb.Open("bdb", path, true, 10*time.Second, false)
+	if err != nil {
+		r.Violation("c11:batch:reopen", err.Error(), "batches", cs, nil)
+		return
+	}
+	if !check("after reopen") {
+		return
+	}
+	r.Hit("batch-calls", len(all))
+	r.Hit("batch-functions-re-run-after-a-sibling-failed", reran)
+	r.Case(fmt.Sprintf("batch/%d/%d/%d", ng, rounds, cs), reran > 0)
+}
+
 func main() {
 	r := evid.New(P, "exploration")
 	r.Rule("random transaction programs (3..42 steps of put / get / delete / create-bucket / create-if-not-exists / descend / delete-bucket / cursor first-next-last-prev + ForEach / seek+next / next-sequence / set-sequence / cursor-delete / cross-namespace put) over arbitrary byte keys (0x00/0xff runs, shared prefixes, random, empty) and values (empty..300 bytes), executed in lock-step on the real walletdb/bdb database and a nested-map model, with outcome drawn from {commit, error, panic, read-only transaction attempting every mutation, manual rollback, manual commit}; every return value and documented error class is compared per step, the whole tree after every outcome and after close+reopen (1 in 10). Concurrent phase: writers commit n keys := unique v in one Update (1 in 7 fails half-way), readers must see n equal values per read transaction, only committed values, in commit order. Non-trivial = program with > 3 logged steps; distinct = distinct step logs.")
@@ -737,6 +847,8 @@ func main() {
 	defer os.RemoveAll(dir)
 	r.Parallel("programs", r.N(60, 2500), evid.Workers(), func(i int, cs int64) { sequential(r, dir, i, cs) })
 	r.Parallel("concurrent", r.N(12, 300), 4, func(i int, cs int64) { concurrent(r, dir, i, cs) })
+	r.Parallel("batches", r.N(12, 300), 4, func(i int, cs int64) { batches(r, dir, i, cs) })
+	r.Require("batch-functions-re-run-after-a-sibling-failed", 5)
 	r.Require("programs", 1000)
 	r.Require("outcome:panic", 50)
 	r.Require("outcome:readonly", 50)
